@@ -15,7 +15,7 @@ import (
 
 // API variants of the one observation "does input idx verify": every way a caller can drive the exported
 // Engine must give the verdict of NewEngine(...).Execute() with fresh arguments.
-const nVariants = 12
+const nVariants = 13
 
 func verdict(err error) string {
 	if err != nil {
@@ -157,6 +157,36 @@ func (s *spend) runVariant(v int) string {
 			}
 		}
 		return check("cache-other-tx", r)
+	case 12: // nil and empty-but-non-nil slices are the same input
+		t2 := s.tx.Copy()
+		in := t2.TxIn[s.idx]
+		flipB := func(b []byte) []byte {
+			if b == nil {
+				return []byte{}
+			}
+			if len(b) == 0 {
+				return nil
+			}
+			return b
+		}
+		in.SignatureScript = flipB(in.SignatureScript)
+		if in.Witness == nil {
+			in.Witness = wire.TxWitness{}
+		} else if len(in.Witness) == 0 {
+			in.Witness = nil
+		} else {
+			w := make(wire.TxWitness, len(in.Witness))
+			for i, e := range in.Witness {
+				w[i] = flipB(e)
+			}
+			in.Witness = w
+		}
+		sp2 := make([]*wire.TxOut, len(s.spent))
+		for i, o := range s.spent {
+			sp2[i] = &wire.TxOut{Value: o.Value, PkScript: flipB(o.PkScript)}
+		}
+		s2 := &spend{flags: s.flags, tx: t2, idx: s.idx, spent: sp2}
+		return check("nil-vs-empty", s2.runBtcd())
 	case 10, 11: // the exported taproot helpers agree with the engine on native P2TR spends
 		in := s.tx.TxIn[s.idx]
 		pk := prev.PkScript
